@@ -7,8 +7,14 @@ LEVEL_TEXT["C16"] = (
     "MedianFilter output k = median of the last n samples of init^n ++ stream for every n >= 3, every initial value and EVERY framing "
     "(process-call splitting proved irrelevant), medfilt = median of the centred zero-padded window; Kendall = (C - D)/C(n,2), symmetric, "
     "in [-1,1], = +-1 for strictly monotone relations; Pearson = moment formula, symmetric, |r| <= 1 (Cauchy-Schwarz) over the reals. "
-    "Tie: bit-exact correspondence of all five entry points on every data class; the implementation's own sort output is checked for the three relations. "
-    "Rounding of Pearson/Spearman (and the Spearman = rank clause) is measured against O(n^2) long-double definitions, all permutations of length <= 7."
+    "Tie: bit-exact correspondence of all five entry points on every data class AND value class (clusters of adjacent doubles, integers at 2^52, multiples of denorm_min, "
+    "+-0, scales 1e-300..1e300, powers of two); the implementation's own sort output is checked for the three relations. "
+    "The median oracles are EXACT (the two middle order statistics are input values: got == a, resp. got == fl(a+b)/2), so a wrong order statistic 1 ulp away is a failure. "
+    "Every MedianFilter OBJECT (constructed, copied, moved, filled into a vector, passed by value; frames and results through temporaries; failed calls in between) is checked "
+    "against the median of its own window. Rounding of Pearson/Spearman (and the Spearman = rank clause) is measured against O(n^2) long-double definitions, all permutations "
+    "of length <= 7; scale-, offset- and 1-ulp value classes of corr are held to the same references (r, rho, tau are invariant under scaling and translation; Pearson "
+    "for scales / spreads within 1e-70..1e70, beyond that its range limit is only measured). The model of _pearson_corr is literal (mean pass, centred sums, the product form with "
+    "the residual sum_x*sum_y still subtracted); pearson_eq_pearsonM proves that over the reals the centring changes nothing, so every Pearson theorem is about the code's formula."
 )
 
 PROPS["C16"] = {
@@ -28,11 +34,29 @@ PROPS["C16"] = {
             "(quick: 5 class/framing pairs per order), short streams below the window length; medfilt: orders 3..64 x lengths 1..2000 around the window length; "
             "corr: all pairs of permutations of length <= 6 (quick 5), every permutation of length 7 (quick 6) against identity/reversed/random x, "
             "random permutations to length 2000, strictly monotone (non-linear and affine) relations; three kinds each, both argument orders; "
-            "distinct = distinct protocol lines / oracle evaluations; non-trivial = all (each is a different input)",
+            "distinct = distinct protocol lines / oracle evaluations; non-trivial = all (each is a different input). "
+            "VALUE CLASSES (round 2): 7 value classes (1..3-ulp clusters of adjacent doubles with exact repeats and rising/falling/sawtooth nextafter chains; integers in [2^52, 2^53) "
+            "incl. jittered time stamps; k*denorm_min; +-0 mixed with +-denorm_min/+-DBL_MIN/+-1; one absolute scale of 1e-300, 1e-17, 1e-8, 1, 1e8, 1e100, 1e300; powers of two "
+            "2^-1070..2^1000 -2..+2 ulps; mixed scales in one window) for sort/median at every length 1..2000 (quick: rotation + grid), every sequence over a 3-member nextafter chain "
+            "up to length 5; for MedianFilter orders 3..64 x the 7 classes + the window-boundary class (period n-1, n, n+1 stream drifting one ulp per period) x 6 framings x 5 initial "
+            "histories incl. a 1-ulp neighbour of a data sample and -0.0 (quick: 3 class/framing pairs per order, 3000-sample streams), every stream of length n+3 over a 3-member chain "
+            "for orders 3..5 (thorough ..6); medfilt: orders 3..64 x lengths around the window x the 8 classes. LARGE SINGLE CALLS: sort/median of 65537 and 131073 elements (thorough also "
+            "46349, 65536, 98304, 131072, 147456, 196608, 262145), MedianFilter frames of 65537 and 131073 samples after small frames (thorough: 65536, 98304, 131072, 147456, 196608, 262145), "
+            "medfilt of 70001 / 131073 samples, each followed by small calls. OBJECT LIFETIME: 90 (thorough 600) random programs per run over MedianFilter objects: copy construction, "
+            "by-value parameter + return, vector fill constructor, copy of a vector of filters, move construction, copy assignment where the class offers one, destruction of some objects, "
+            "frames passed as named arrays / slice temporaries / concatenation temporaries / arithmetic temporaries / arrays built from std::vector, results bound to const& and consumed by "
+            "range-for, interleaved with calls that must throw (order < 3, empty medfilt, corr size mismatch) followed by valid stateless calls; every output of every object against the "
+            "exact median of its own history; the ancestry of 2 objects per program is one CORR stream. CORR (corr): nextafter chains (1 / 1..2 ulps apart, bases 1, 2^52, denorm_min, "
+            "through zero, -2^53, any scale) under random permutations and monotone relations, all 100 pairs of the scales 1e-300, 1e-100, 1e-70, 1e-17, 1e-8, 1, 1e8, 1e70, 1e100, 1e300, offsets +-1e3..+-2^52 "
+            "with random permutations and affine relations, lengths just beyond 2000 (thorough 2001, 2048, 4099, 8191, 46349). Pearson is held to the long-double reference (1e-9) on the "
+            "offset class, on 1-ulp chains and on all scale pairs with BOTH scales in [1e-70, 1e70]; where a scale (resp. the spread max-min of a 1-ulp chain) is outside [1e-70, 1e70] the "
+            "product of the two variance terms under the root can leave the double range (x = y = {1,2,4}*1e100 gives 0): a floating-point RANGE limit outside the property's quantifier, "
+            "measured only (statistics corr_pearson_{scale,ulpchain}_outofrange_{ok,off,nonfinite}); Spearman and Kendall are checked at every scale",
     "trusted_base": TB_COMMON + [
         "std::sort / std::is_sorted are modelled by List.mergeSort / an adjacent-pair scan; equal values may come out in a different index order (index vectors are not compared; "
         "the harness checks permutation, gather and order on the implementation's own output)",
-        "IEEE comparison semantics (NaN) and rounding are not modelled; the data generators produce no NaN and no -0.0",
+        "IEEE comparison semantics (NaN) and rounding are not modelled; the data generators produce no NaN. -0.0 occurs (value classes): +0.0 and -0.0 compare equal, so which of the "
+        "two appears in an output is not compared (CORR compares floats numerically, the oracles use ==)",
         "harness oracles (brute-force window median, counting order statistic, O(n^2) long-double r / rho / tau) are trusted as definitions",
     ],
     "assumptions": [
